@@ -298,6 +298,7 @@ fn err_class(e: &InvalidTransaction) -> &'static str {
         GasPriceLessThanBasefee => "basefee",
         PriorityFeeGreaterThanMaxFee => "prio",
         NonceTooHigh { .. } | NonceTooLow { .. } => "nonce",
+        NonceOverflowInTransaction => "nonceoverflow",
         OptimismError(OptimismInvalidTransaction::DepositSystemTxPostRegolith) => "systx",
         OptimismError(OptimismInvalidTransaction::HaltedDepositPostRegolith) => "halteddeposit",
         _ => "other",
@@ -689,6 +690,10 @@ pub fn gen_optx(seed: u64, n: usize) -> Vec<String> {
                 3 => l.prio = Some(l.gas_price + U256::from(1)),
                 4 => l.tx_nonce = Some(l.s_nonce + 1 - 2 * rng.below(2).min(l.s_nonce)),
                 5 => l.env = None,
+                6 if rng.chance(1, 2) => {
+                    l.s_nonce = u64::MAX;
+                    l.tx_nonce = if rng.chance(1, 2) { Some(u64::MAX) } else { None };
+                }
                 6 => l.gas_price = U256::MAX >> rng.below(70) as usize,
                 _ => l.system = Some(true),
             }
